@@ -310,16 +310,20 @@ theorem WFApi.apiUpdateRanges_ok {m : MapObj} {op : String} {R : List (Nat × Na
     (m'.st = m.st ∨
       (∃ (pre : Option (Val → Val)) (f : Val → Val → Val) (pv : List (Nat × Val)) (na : Bool),
         (∀ qw ∈ pv, qw.1 < m.npix) ∧ m'.st = updatePix m.c m.vc m.st pre f pv na) ∨
-      (∃ (g : Val → Val) (na : Bool), (∀ ab ∈ R, ab.1 ≤ ab.2 ∧ ab.2 ≤ m.npix) ∧
-        m'.st = updateRanges m.c m.vc m.st g R na)) := by
+      (∃ (R' : List (Nat × Nat)) (na : Bool), (∀ ab ∈ R', ab.1 ≤ ab.2 ∧ ab.2 ≤ m.npix) ∧
+        ∃ st₁, (st₁ = m.st ∨ ∃ g, st₁ = updateRanges m.c m.vc m.st g R' na) ∧
+          ∃ g, m'.st = updateRanges m.c m.vc st₁ g R' na)) := by
   unfold apiUpdateRanges at h
   simp only [bind, Except.bind, pure, Except.pure, throw, throwThe, MonadExceptOf.throw] at h
   repeat' xpeel h
   all_goals first
     | (cases h; exact ⟨rfl, rfl, rfl, rfl, rfl, rfl, Or.inl rfl⟩)
     | (cases h
-       exact ⟨rfl, rfl, rfl, rfl, rfl, rfl,
-         Or.inr (Or.inr ⟨_, _, ranges_ok_of_not_any ‹_›, rfl⟩)⟩)
+       refine ⟨rfl, rfl, rfl, rfl, rfl, rfl,
+         Or.inr (Or.inr ⟨_, _, ranges_ok_of_not_any ‹_›, _, ?_, _, rfl⟩)⟩
+       split
+       · exact Or.inr ⟨_, rfl⟩
+       · exact Or.inl rfl)
     | exact (fun ⟨h1, h2, h3, h4, h5, h6, h7⟩ => ⟨h1, h2, h3, h4, h5, h6, h7.imp id Or.inl⟩)
         (apiUpdate_ok h)
 
@@ -331,12 +335,16 @@ theorem WFAt.apiUpdateRanges {m : MapObj} {b : Val} {op : String} {R : List (Nat
   refine ⟨by rw [h1, h2]; exact h.1, ?_⟩
   have hc : m'.c = m.c := by unfold MapObj.c; rw [h1, h2]
   rw [hc, hvalid]
-  rcases h5 with h5 | ⟨pre, f, pv, na, hpv, h5⟩ | ⟨g, na, hR, h5⟩
+  rcases h5 with h5 | ⟨pre, f, pv, na, hpv, h5⟩ | ⟨R', na, hR, st₁, hst₁, g, h5⟩
   · rw [h5]; exact h.2
   · rw [h5]
     exact inv_updatePix_at m.c m.vc ⟨b, m.vc.valid⟩ m.st pre f pv na h.2 hpv
   · rw [h5]
-    exact inv_updateRanges_at m.c m.vc ⟨b, m.vc.valid⟩ m.st g R na h.2 hR
+    have h1 : Inv m.c ⟨b, m.vc.valid⟩ st₁ := by
+      rcases hst₁ with rfl | ⟨g₁, rfl⟩
+      · exact h.2
+      · exact inv_updateRanges_at m.c m.vc ⟨b, m.vc.valid⟩ m.st g₁ R' na h.2 hR
+    exact inv_updateRanges_at m.c m.vc ⟨b, m.vc.valid⟩ st₁ g R' na h1 hR
 
 theorem WF.apiUpdateRanges {m : MapObj} {op : String} {R : List (Nat × Nat)}
     {val : Option Val} {slicePath : Bool} {m' : MapObj}
